@@ -271,9 +271,10 @@ def directed(gen, kind, hclass, hard):
         elif kind in ("rename", "symlink"):
             q.update(path=["b", "nope", "a"][variant], path2=["new1", "new2", "d"][variant])
         elif kind == "ext_check_file":
-            q.update(ext="check-file", hsel=hs, algs=["md5", "sha1", "md5,sha1"][variant],
-                     off=0, len=(10 ** 6 if hard else [0, 1000, 65536][variant]) if variant != 1 or hard else 1000,
-                     blk=[0, 256, 70000][variant] if hard else [0, 256, 4096][variant],
+            # hard = a range on which the pinned loop does not end: past EOF, or one block over the 64 KiB read chunk
+            q.update(ext="check-file", hsel=hs, algs=["md5", "sha1", "md5,sha1"][variant], off=0,
+                     len=[10 ** 6, 0, 10 ** 6][variant] if hard else [1000, 1000, 65536][variant],
+                     blk=[0, 0, 70000][variant] if hard else [0, 256, 4096][variant],
                      hpath=lambda tok: os.path.join(gen.root, "a") if tok == 1 else None)
         elif kind == "ext_posix_rename":
             q.update(ext="posix-rename@openssh.com", path=["b", "nope", "a"][variant], path2=["new1", "x", "b"][variant])
